@@ -6,6 +6,10 @@ Model of `tweakwcs.wcsimage.WCSImageCatalog._calc_chip_bounding_polygon` up to t
 Mathlib-free, generic over the scalar type `K`; integers where the code uses integers
 (`HasFloor` of `Model/Hist.lean` supplies `numpy.floor` / `numpy.ceil` followed by `int(…)`).
 
+With a bounding box the rectangle is the box shrunk by half a pixel, but not past the sources of the
+catalog that lie inside the box (`rectBB`; the plain shrink `rectBBOld` is what the code did before the
+repair of finding F25).
+
 Outside the model: the sky map `det_to_world`, the forced closing `ra[-1] = ra[0]`, the spherical
 polygon; masked catalog entries, NaN / infinite coordinates; the early `return` when the corrector
 or the catalog is `None` (nothing is computed then).
@@ -48,8 +52,33 @@ def amax : List K → Option K
   | [] => none
   | a :: rest => some (rest.foldl (fun m v => if m < v then v else m) a)
 
-/-- `(lx, hx), (ly, hy) = bounding_box; lx += 0.5; hx -= 0.5; ly += 0.5; hy -= 0.5` -/
-def rectBB (b : Rect K) : Rect K := ⟨b.lx + halfK, b.hx - halfK, b.ly + halfK, b.hy - halfK⟩
+/-- `numpy.amin` of a column (finite values); `none` for an empty one -/
+def amin : List K → Option K
+  | [] => none
+  | a :: rest => some (rest.foldl (fun m v => if v < m then v else m) a)
+
+/-- Python's built-in `max(a, b)` of two numbers: `b` only when it is strictly larger -/
+def pyMax (a b : K) : K := if a < b then b else a
+
+/-- Python's built-in `min(a, b)` of two numbers: `b` only when it is strictly smaller -/
+def pyMin (a b : K) : K := if b < a then b else a
+
+/-- the bounding box shrunk by half a pixel on every side:
+`lx = bb_lx + 0.5; hx = bb_hx - 0.5; ly = bb_ly + 0.5; hy = bb_hy - 0.5`
+(the whole bounding-box branch before the repair of finding F25) -/
+def rectBBOld (b : Rect K) : Rect K := ⟨b.lx + halfK, b.hx - halfK, b.ly + halfK, b.hy - halfK⟩
+
+/-- the bounding-box branch: the box shrunk by half a pixel, but (`if len(self._catalog) > 0`) not past
+the sources of the catalog that lie inside the box and never beyond the box:
+`lx = min(lx, max(np.amin(x), bb_lx)); hx = max(hx, min(np.amax(x), bb_hx))`, then the same for `y` -/
+def rectBB (b : Rect K) (cat : List (K × K)) : Rect K :=
+  let s := rectBBOld b
+  let xs := cat.map fun p => p.1
+  let ys := cat.map fun p => p.2
+  match amin xs, amax xs, amin ys, amax ys with
+  | some nx, some mx, some ny, some my =>
+    ⟨pyMin s.lx (pyMax nx b.lx), pyMax s.hx (pyMin mx b.hx), pyMin s.ly (pyMax ny b.ly), pyMax s.hy (pyMin my b.hy)⟩
+  | _, _, _, _ => s   -- `len(self._catalog) == 0`
 
 end
 
@@ -71,7 +100,7 @@ def rectNoBB (cat : List (K × K)) : Except ChipErr (Rect K) :=
 def chipRect (bbox : Option (Rect K)) (cat : List (K × K)) : Except ChipErr (Rect K) :=
   match bbox with
   | none => rectNoBB cat
-  | some b => .ok (rectBB b)
+  | some b => .ok (rectBB b cat)
 
 /-! ### numbers of intervals -/
 
